@@ -93,6 +93,17 @@ func snapshotConstants() {
 // in-place update of a value obtained from it - and an oracle that calls Base() itself is corrupted
 // along with the code under test.
 func constantsIntact(gi *GroupInfo) string {
+	// first overwrite, in place, values obtained from the constants: a constructor that hands out the
+	// group's own storage (or storage shared between its results) is exposed by the comparison below
+	if gi.HasBase && gi.Role != 3 {
+		b1, b2 := gi.G.Point().Base(), gi.G.Point().Base()
+		b1.Null()
+		b2.Set(gi.G.Point().Add(gi.G.Point().Base(), gi.G.Point().Base()))
+	}
+	n1 := gi.G.Point().Null()
+	if gi.HasBase {
+		n1.Set(gi.G.Point().Base())
+	}
 	if gi.HasBase {
 		if b, _ := gi.G.Point().Base().MarshalBinary(); !bytes.Equal(b, gi.baseEnc) {
 			return fmt.Sprintf("Base() now encodes %x, at process start it encoded %x", b, gi.baseEnc)
